@@ -1,6 +1,7 @@
 """C02 — only valid metrics are forwarded; every rejection is counted and reported"""
 from . import tablegen as tg
 from .c01 import classify
+from . import common
 
 LEVEL_TEXT = ("Lean theorems Crng.Props.C02.gate_iff, invalid_effects, valid_proceeds, forwarded_only_if_valid, bad_report over the byte-level "
               "transcription of go-metrics20 ValidatePacket, the gate in Table.Dispatch and the bad-metrics map. Regenerated obligations "
@@ -144,7 +145,7 @@ def run(ctx):
     ctx.prepare()
     ctx.lean(["Crng.Props.C02"], ["Crng.Props.C02.gate_iff", "Crng.Props.C02.invalid_effects", "Crng.Props.C02.valid_proceeds",
                                   "Crng.Props.C02.forwarded_only_if_valid", "Crng.Props.C02.bad_report", "Crng.Bad.keys_nodup"],
-             ties=["Crng.Tie.C02"])
+             ties=["Crng.Tie.C02", common.CODE_TABLE])
     ctx.stream("validator", "val", val_cases(ctx.rng("val"), ctx.scale(20000, 400000)), spec_exact=True, shrink=False,
                classify=lambda l, o: "errkinds=%d" % len(set(x.split()[-1] for x in o)))
     h = ctx.histograms.setdefault("validator-errkinds", {})
